@@ -302,7 +302,13 @@ func (c *fsCache) initialize(appname string) error {
 	}
 	c.fn = fragmentingFileNamer()
 	c.fnk = fragmentingFileNameKeyer()
-	c.dw = dirWalkerFunc(filepath.WalkDir)
+	c.dw = dirWalkerFunc(func(dir string, fn fs.WalkDirFunc) error {
+		// Walk through the root handle, one component at a time, so that
+		// fragment directories nested deeper than PATH_MAX stay reachable.
+		return fs.WalkDir(c.root.FS(), ".", func(p string, d fs.DirEntry, err error) error {
+			return fn(filepath.Join(dir, filepath.FromSlash(p)), d, err)
+		})
+	})
 	c.timeout = cmp.Or(c.timeout, defaultTimeout)
 
 	return nil
